@@ -31,6 +31,7 @@ RULES = {
     "R03.3": "no cycle in the call graph restricted to the attack surface",
     "R03.4": "no unwrap/expect on Result anywhere on the surface",
     "R03.5": "isolation: dropping one connection forgets that peer only (C16 R16.4) and keeps the others' queued wake-ups and ticket order (C06 R06.5)",
+    "R03.F": "foundation clauses re-evaluated as necessary conditions: " + ", ".join(['accept']),
 }
 
 # key -> reason.  Keys carry no line numbers: <rule>|<function>|<callee>#<ordinal among same-callee sites in bb order>
@@ -201,7 +202,12 @@ def check_isolation(ctx, f, rep):
     rep.floor("R03.5", "isolation obligations re-evaluated", n, 8)
 
 
+DEPENDS = ['accept']     # foundation groups re-evaluated as necessary conditions (rules/found.py)
+
+
 def run(ctx, f, rep):
+    from . import found
+    found.import_groups(ctx, f, rep, 'C03', DEPENDS)
     check_isolation(ctx, f, rep)
     edges = callgraph.build(f)
     roots = surface(f)
